@@ -230,3 +230,14 @@ Section Images.
              end
     end.
 End Images.
+
+(* ---- the images directory (fetch.py:148-151 get_imagepath + the caller's open(path, "wb").write(bytes)) ------- *)
+(* a directory = association list file name -> content; writing to an existing name replaces the content *)
+Definition store_images {D : Type} (imgs : list (str * D)) : list (str * D) :=
+  fold_left (fun fs im => dict_set str_eqb (stored_name (fst im)) (snd im) fs) imgs [].
+(* the bytes behind the file name that normalize_and_get_image_path serves *)
+Definition image_bytes {D : Type} (fs : list (str * D)) (served : result (option str)) : option D :=
+  match served with
+  | Ok (Some n) => dict_get str_eqb n fs
+  | _ => None
+  end.
